@@ -9,6 +9,7 @@
      3. function import            f        -> the caller module's import whose last segment is f;
                                                import paths are relative to the caller's module,
                                                every leading `super` segment walks up one module
+                                               (the last segment is the imported name, never a step)
      4. module-prefix import       q.r.f    -> the import whose last segment is q designates a module;
                                                r.f is looked up inside it
    More `super` segments than enclosing modules is an error (SuperLimitReached).
@@ -59,7 +60,7 @@ Definition lookup (root : module) (path : list str) (name : str) : option fid :=
   | None => None
   end.
 
-(* an import path: number of leading `super` segments and the remaining segments *)
+(* number of leading `super` segments of a module path, and the remaining segments *)
 Fixpoint strip_supers (segs : list str) : nat * list str :=
   match segs with
   | x :: r => if seq_eqb x w_super then let '(k, rest) := strip_supers r in (S k, rest) else (O, segs)
@@ -78,6 +79,9 @@ Inductive sres := SFound (f : fid) | SNotFound | SSuperLimit.
 Definition or_else (a : option fid) (b : sres) : sres :=
   match a with Some f => SFound f | None => b end.
 
+(* An import path is  super* . module path . NAME : its LAST segment is the imported name (the key under
+   which the import is used) and is never a `super` step; the segments before it are a module path
+   relative to the caller's module, whose leading `super` segments walk up. *)
 Definition spec_resolve (root : module) (ns : list str) (imports : list str) (name : str) : sres :=
   let segs := segments name in
   let mods := removelast segs in
@@ -89,17 +93,17 @@ Definition spec_resolve (root : module) (ns : list str) (imports : list str) (na
        match import_for imports f with
        | None => SNotFound
        | Some isegs =>
-           let '(ups, rest) := strip_supers isegs in
+           let '(ups, mpath) := strip_supers (removelast isegs) in
            if Nat.ltb (length ns) ups then SSuperLimit
-           else or_else (lookup root (firstn (length ns - ups) ns ++ removelast rest) (last rest [])) SNotFound
+           else or_else (lookup root (firstn (length ns - ups) ns ++ mpath) (last isegs [])) SNotFound
        end
    | q :: mrest =>                                               (* 4. module-prefix import *)
        match import_for imports q with
        | None => SNotFound
        | Some isegs =>
-           let '(ups, rest) := strip_supers isegs in
+           let '(ups, mpath) := strip_supers (removelast isegs) in
            if Nat.ltb (length ns) ups then SSuperLimit
-           else or_else (lookup root (firstn (length ns - ups) ns ++ rest ++ mrest) f) SNotFound
+           else or_else (lookup root (firstn (length ns - ups) ns ++ mpath ++ last isegs [] :: mrest) f) SNotFound
        end
    end)).
 
